@@ -331,6 +331,45 @@ impl<const C: usize> Machine for RibM<C> {
     }
 }
 
+fn replay_long<const C: usize>(cfg: RibCfg, polls: usize, with_value: bool) -> Vec<String> {
+    let mut m = match RibM::<C>::new(cfg, vec![], with_value, false, u32::MAX) {
+        Ok(m) => m,
+        Err(e) => return vec![e],
+    };
+    m.edge_polls = !with_value;
+    let b = cfg.boundary();
+    let mut lines = Vec::new();
+    for i in 0..polls {
+        let x = long_press_sample(i, b);
+        let mut seq = vec![ROp::Poll(x)];
+        if !with_value {
+            seq.push(ROp::JustPressed);
+            if i % 3 == 0 {
+                seq.push(ROp::JustReleased);
+            }
+        }
+        m.do_value = with_value && i + 3 >= polls;
+        for op in seq {
+            let mut out = StepOut::new();
+            let r = std::panic::catch_unwind(std::panic::AssertUnwindSafe(|| m.apply(&op, &mut out)));
+            if !m.do_value && with_value && m.m.pressing {
+                m.m.last_value_bits = m.rib.value().to_bits();
+            }
+            if !out.flags.is_empty() || r.is_err() || i + 2 >= polls || i < 2 {
+                let mut l = format!("poll #{:<6} {:<22} -> pressing={} value={:?}", i + 1, RibM::<C>::op_str(&op), m.rib.finger_is_pressing(), m.rib.value());
+                if let Err(e) = &r {
+                    l.push_str(&format!("  PANIC: {}", panic_msg(e)));
+                }
+                for f in &out.flags {
+                    l.push_str(&format!("\n        !! {} [{}] {}", f.prop, f.class, f.detail));
+                }
+                lines.push(l);
+            }
+        }
+    }
+    lines
+}
+
 pub fn parse_op(s: &str) -> ROp {
     match s {
         "just_pressed" => ROp::JustPressed,
@@ -348,6 +387,10 @@ macro_rules! with_capacity {
             1000 => $f::<{ sample_rate_to_capacity(1000) }>($($args),*),
             2000 => $f::<{ sample_rate_to_capacity(2000) }>($($args),*),
             10000 => $f::<{ sample_rate_to_capacity(10000) }>($($args),*),
+            4000 => $f::<{ sample_rate_to_capacity(4000) }>($($args),*),
+            8000 => $f::<{ sample_rate_to_capacity(8000) }>($($args),*),
+            3500 => $f::<{ sample_rate_to_capacity(3500) }>($($args),*),
+            22050 => $f::<{ sample_rate_to_capacity(22050) }>($($args),*),
             48000 => $f::<{ sample_rate_to_capacity(48000) }>($($args),*),
             192000 => $f::<{ sample_rate_to_capacity(192000) }>($($args),*),
             _ => panic!("unsupported ribbon sample rate {}", $fs),
@@ -367,6 +410,15 @@ fn replay_c<const C: usize>(cfg: RibCfg, ops: &[String]) -> Vec<String> {
 }
 
 pub fn replay(config: &Value, ops: &[String]) -> Vec<String> {
+    if let Some(lp) = ops.iter().find(|o| o.starts_with("longpress:")) {
+        let parts: Vec<&str> = lp.split(':').collect();
+        let cfg = RibCfg { fs: config["fs"].as_u64().unwrap_or(1000) as u32, softpot: config["softpot"].as_f64().unwrap_or(20e3) as f32, dropper: config["dropper"].as_f64().unwrap_or(820.0) as f32, pullup: config["pullup"].as_f64().unwrap_or(1e6) as f32 };
+        let polls: usize = parts[1].parse().unwrap();
+        let wv = parts[2] == "true";
+        return with_capacity!(cfg.fs, replay_long, cfg, polls, wv);
+    }
+    let ops: Vec<String> = ops.iter().filter(|o| !o.starts_with('#')).cloned().collect();
+    let ops = &ops[..];
     let cfg = RibCfg { fs: config["fs"].as_u64().unwrap_or(1000) as u32, softpot: config["softpot"].as_f64().unwrap_or(20e3) as f32, dropper: config["dropper"].as_f64().unwrap_or(820.0) as f32, pullup: config["pullup"].as_f64().unwrap_or(1e6) as f32 };
     with_capacity!(cfg.fs, replay_c, cfg, ops)
 }
@@ -494,6 +546,99 @@ fn piecewise_c<const C: usize>(ctx: &Ctx, rep: &mut Report, cfg: RibCfg, stride:
     rep.subruns.push(json!({"engine": "E2-sweep", "what": "piecewise-constant presses with <= 2 level switches at every pair of positions, 4 kinds of earlier activity", "fs": cfg.fs, "capacity": C, "press_needs": l, "positions": pos.len(), "sequences": n}));
 }
 
+/// one press held for more than 2^16 polls (counters of 8 / 16 bits inside a controller wrap in that time), samples
+/// following a golden-ratio sawtooth so that the window contents keep changing; edge polls after every
+/// sample when `with_edges`
+/// samples of a long press: a golden-ratio sawtooth, so that no two samples a short distance apart are equal (a stale
+/// or missing sample in the average always shows)
+fn long_press_sample(i: usize, b: f32) -> f32 {
+    let f = (i as f64 * 0.618_033_988_749_895).fract();
+    (b as f64 * (0.15 + 0.7 * f)) as f32
+}
+
+fn long_press_c<const C: usize>(ctx: &Ctx, rep: &mut Report, cfg: RibCfg, with_value: bool, props: &[&'static str]) {
+    let _ = ctx;
+    let mut m = match RibM::<C>::new(cfg, vec![], with_value, false, u32::MAX) {
+        Ok(m) => m,
+        Err(_) => return,
+    };
+    m.edge_polls = !with_value;
+    let b = cfg.boundary();
+    let total = m.m.l + 65536 + 2 * C + 300;
+    let mut ops: Vec<ROp> = Vec::new();
+    for i in 0..total {
+        let x = long_press_sample(i, b);
+        ops.push(ROp::Poll(x));
+        if !with_value {
+            ops.push(ROp::JustPressed);
+            if i % 3 == 0 {
+                ops.push(ROp::JustReleased);
+            }
+        }
+    }
+    ops.extend([ROp::Poll(1.0), ROp::JustReleased, ROp::JustPressed, ROp::Poll(0.3 * b), ROp::Poll(1.0)]);
+    let mut flagged = false;
+    for (n, op) in ops.iter().enumerate() {
+        // value checks are expensive (a fresh controller is replayed): do them near the start, around 2^8, 2^15, 2^16 and on a lattice
+        let k = n.saturating_sub(m.m.l);
+        m.do_value = with_value && (k < 3 * C + 40 || (k % 997 == 0) || (250..270).contains(&k) || (32760..32790).contains(&k) || (65520..65536 + 2 * C + 60).contains(&k));
+        let mut out = StepOut::new();
+        let r = std::panic::catch_unwind(std::panic::AssertUnwindSafe(|| m.apply(op, &mut out)));
+        if !m.do_value && with_value && m.m.pressing {
+            // keep the retained-value reference in step while value checks are skipped
+            m.m.last_value_bits = m.rib.value().to_bits();
+        }
+        let script = || -> Vec<String> {
+            let polls = ops[..=n].iter().filter(|o| matches!(o, ROp::Poll(_))).count();
+            vec![format!("# one press of {} polls, sample i = boundary * (0.15 + 0.7 * frac(i * 0.618034)){}", polls, if with_value { "" } else { ", edge polls after every sample" }), format!("longpress:{}:{}", polls, with_value)]
+        };
+        if let Err(e) = r {
+            for p in props {
+                rep.violation(Violation { prop: p, class: "panic".into(), detail: format!("the real code panicked: {}", panic_msg(&e)), machine: "ribbon", config: m.config(), ops: script() });
+            }
+            break;
+        }
+        for f in out.flags {
+            if props.contains(&f.prop) && !flagged {
+                let polls = ops[..=n].iter().filter(|o| matches!(o, ROp::Poll(_))).count();
+                rep.violation(Violation { prop: f.prop, class: format!("{}-in-a-long-press", f.class), detail: format!("{} (sample {} of the press)", f.detail, polls), machine: "ribbon", config: m.config(), ops: script() });
+                flagged = true;
+            }
+        }
+        if flagged {
+            break;
+        }
+    }
+    rep.count("long_presses", 1);
+    rep.evaluations += 1;
+    rep.transitions += ops.len() as u64;
+    rep.states += ops.len() as u64;
+    rep.traces += 1;
+    rep.subruns.push(json!({"engine": "E2-sweep", "what": "one press held for 2^16 + polls", "fs": cfg.fs, "capacity": C, "polls": total, "edge_polls_after_every_sample": !with_value}));
+}
+
+/// the settling and finger-lift sample counts of the controller for every integer sample rate (read through the
+/// snapshot hook; they do not depend on the buffer capacity) against the documented 1 ms / 2 ms, and against the
+/// public capacity helper (capacity = 15 ms worth of samples + finger-lift samples + 1)
+fn rate_counts_sweep(ctx: &Ctx, rep: &mut Report, prop: &'static str) {
+    par_ranges(ctx, rep, 192_000 - 100 + 1, 256, |_, lo, hi, lc| {
+        for i in lo..hi {
+            let fs = (100 + i) as u32;
+            let r = RibbonController::<2>::new(fs as f32, 20e3, 820.0, 1e6);
+            let s = r.verif_snapshot();
+            let ignore = (fs as u64 * 1000 / 1_000_000) as usize;
+            let discard = (fs as u64 * 2000 / 1_000_000) as usize;
+            let cap = sample_rate_to_capacity(fs);
+            lc.count("sample_rates_checked", 1);
+            let bad = if prop == "C15" { s.num_to_ignore_up_front != ignore || cap != (fs as u64 * 15000 / 1_000_000) as usize + discard + 1 } else { s.num_to_discard_at_end != discard || cap != (fs as u64 * 15000 / 1_000_000) as usize + discard + 1 };
+            if bad {
+                lc.violation(Violation { prop, class: "allowance-sample-counts".into(), detail: format!("at {} Hz the controller skips {} settling samples and excludes {} newest samples; 1 ms and 2 ms are {} and {} samples (capacity helper: {})", fs, s.num_to_ignore_up_front, s.num_to_discard_at_end, ignore, discard, cap), machine: "ribbon", config: json!({"fs": fs, "softpot": 20e3, "dropper": 820.0, "pullup": 1e6}), ops: vec!["# counts are read through the verif_snapshot hook".into()] });
+            }
+        }
+    });
+    rep.evaluations += 192_000 - 100 + 1;
+}
+
 pub fn sr_cross<const C: usize>(ctx: &Ctx, rep: &mut Report, cfg: RibCfg, levels: Vec<f32>, props: &[&'static str]) {
     crate::sr::cross_check(ctx, rep, || RibM::<C>::new(cfg, levels.clone(), false, false, 2).expect("calibration"), &format!("ribbon press machine at {} Hz", cfg.fs), props);
 }
@@ -517,6 +662,15 @@ pub fn c15(ctx: &Ctx) -> Report {
             let mp = if thorough && fs <= 2000 { 3 } else { 2 };
             with_capacity!(fs, explore_c, ctx, &mut rep, cfg, levels, false, false, mp, None, p, &format!("press detection at {} Hz, resistors {:?}", fs, t));
         }
+    }
+    // a press held beyond 2^16 samples with the edges polled after every sample
+    {
+        let rates: Vec<u32> = if thorough { vec![500, 1000, 10000] } else { vec![1000] };
+        for fs in rates {
+            let cfg = RibCfg { fs, softpot: 20e3, dropper: 820.0, pullup: 1e6 };
+            with_capacity!(fs, long_press_c, ctx, &mut rep, cfg, false, p);
+        }
+        rate_counts_sweep(ctx, &mut rep, "C15");
     }
     // complement without state matching at the two smallest capacities
     {
@@ -573,6 +727,18 @@ pub fn c16(ctx: &Ctx) -> Report {
             with_capacity!(fs, piecewise_c, ctx, &mut rep, cfg, stride, p);
         }
     }
+    {
+        let rates: Vec<u32> = if thorough { vec![500, 1000, 2000] } else { vec![500] };
+        for fs in rates {
+            let cfg = RibCfg { fs, softpot: 20e3, dropper: 820.0, pullup: 1e6 };
+            with_capacity!(fs, long_press_c, ctx, &mut rep, cfg, true, p);
+        }
+        rate_counts_sweep(ctx, &mut rep, "C16");
+        for (fs, stride) in if thorough { vec![(3500u32, 3usize), (4000, 3), (8000, 7), (22050, 40)] } else { vec![(3500u32, 9usize), (8000, 25)] } {
+            let cfg = RibCfg { fs, softpot: 20e3, dropper: 820.0, pullup: 1e6 };
+            with_capacity!(fs, piecewise_c, ctx, &mut rep, cfg, stride, p);
+        }
+    }
     if thorough {
         let cfg = RibCfg { fs: 334, softpot: 20e3, dropper: 820.0, pullup: 1e6 };
         let b = cfg.boundary();
@@ -583,6 +749,8 @@ pub fn c16(ctx: &Ctx) -> Report {
     rep.require_nonzero("values_checked_while_lifted");
     rep.require_nonzero("monotonicity_comparisons");
     rep.require_nonzero("piecewise_constant_presses");
+    rep.require_nonzero("long_presses");
+    rep.require_nonzero("sample_rates_checked");
     rep.assumptions.push("the pull-up correction is the documented estimate c(m) = m - (m - m^2)*(softpot+dropper)/pullup".into());
     rep
 }
